@@ -27,7 +27,7 @@ pub async fn take(h: &mut Harness) -> Snapshot {
     h.sim.settle().await;
     let client = h.clients[0].as_ref().unwrap();
     if let Ok(streams) = client.get_streams().await {
-        let mut list: Vec<String> = streams.iter().map(|s| format!("{}:{}:{}", s.id, s.name, s.created_at.as_micros())).collect();
+        let mut list: Vec<String> = streams.iter().map(|s| format!("{}:{}", s.id, s.name)).collect();
         list.sort();
         snap.insert("cat/streams".into(), list.join(","));
         for s in &streams {
@@ -36,15 +36,15 @@ pub async fn take(h: &mut Harness) -> Snapshot {
             if let Ok(Some(details)) = client.get_stream(&sid).await {
                 let mut topics: Vec<String> = details.topics.iter().map(|t| format!("{}:{}", t.id, t.name)).collect();
                 topics.sort();
-                snap.insert(format!("cat/stream/{}", s.id), format!("name={} created={} topics=[{}]", details.name, details.created_at.as_micros(), topics.join(",")));
+                snap.insert(format!("cat/stream/{}", s.id), format!("name={} topics=[{}]", details.name, topics.join(",")));
                 for t in &details.topics {
                     let tid = IdRef::Num(t.id).to_identifier();
                     if let Ok(Some(td)) = client.get_topic(&sid, &tid).await {
-                        let mut parts: Vec<String> = td.partitions.iter().map(|p| format!("{}@{}", p.id, p.created_at.as_micros())).collect();
+                        let mut parts: Vec<String> = td.partitions.iter().map(|p| format!("{}", p.id)).collect();
                         parts.sort();
                         snap.insert(
                             format!("cat/topic/{}/{}", s.id, t.id),
-                            format!("name={} created={} expiry={:?} max={:?} repl={} comp={:?} partitions=[{}]", td.name, td.created_at.as_micros(), td.message_expiry, td.max_topic_size, td.replication_factor, td.compression_algorithm, parts.join(",")),
+                            format!("name={} expiry={:?} max={:?} repl={} comp={:?} partitions=[{}]", td.name, td.message_expiry, td.max_topic_size, td.replication_factor, td.compression_algorithm, parts.join(",")),
                         );
                         snap.insert(format!("fig/topic/{}/{}", s.id, t.id), format!("size={} messages={}", td.size.as_bytes_u64(), td.messages_count));
                         for p in &td.partitions {
@@ -62,7 +62,7 @@ pub async fn take(h: &mut Harness) -> Snapshot {
         }
     }
     if let Ok(users) = client.get_users().await {
-        let mut list: Vec<String> = users.iter().map(|u| format!("{}:{}:{}:{}", u.id, u.username, u.status, u.created_at.as_micros())).collect();
+        let mut list: Vec<String> = users.iter().map(|u| format!("{}:{}:{}", u.id, u.username, u.status)).collect();
         list.sort();
         snap.insert("cat/users".into(), list.join(","));
         for u in &users {
@@ -220,6 +220,19 @@ pub fn compare(h: &mut Harness, before: &Snapshot, after: &Snapshot, tree_before
             (_, None, Some(_)) => format!("{class}_{sub}_appeared"),
             _ => format!("{class}_{sub}_changed"),
         };
+        // whatever the property under check: the model no longer describes this entity
+        let parts: Vec<&str> = key.split('/').collect();
+        match class {
+            "msg" | "cur" => {
+                if let (Some(s), Some(t), Some(p)) = (parts.get(1).and_then(|x| x.parse::<u32>().ok()), parts.get(2).and_then(|x| x.parse::<u32>().ok()), parts.get(3).and_then(|x| x.parse::<u32>().ok())) {
+                    if let Some(pm) = h.model.streams.get_mut(&s).and_then(|x| x.topics.get_mut(&t)).and_then(|x| x.partitions.get_mut(&p)) {
+                        pm.tainted = true;
+                    }
+                }
+            }
+            "cat" => h.fatal = true,
+            _ => {}
+        }
         let cut = |s: Option<&String>| s.map(|s| if s.len() > 300 { format!("{}…({} bytes)", &s[..300], s.len()) } else { s.clone() });
         h.violate(prop, oracle, tag, format!("{key}: before restart {:?}, after {:?}", cut(b), cut(a)));
     }
